@@ -74,7 +74,9 @@ TIE_THEOREMS = {".IsReservedWord": "IsReservedWord_eq", "File.isLocal": "isLocal
                 "Statement.render": "Statement_render_eq", "Group.renderItems": "Group_renderItems_eq", "Group.render": "Group_render_eq",
                 "File.Render": "File_Render_eq", "Statement.RenderWithFile": "Statement_RenderWithFile_eq",
                 "Group.RenderWithFile": "Group_RenderWithFile_eq", "File.Save": "File_Save_eq",
-                "Dict.render": "Dict_render_eq", "token.render": "token_render_eq"}
+                "Dict.render": "Dict_render_eq", "token.render": "token_render_eq",
+                ".NewFile": "NewFile_eq", ".NewFilePath": "NewFilePath_eq", ".NewFilePathName": "NewFilePathName_eq",
+                "File.HeaderComment": "HeaderComment_eq", "File.PackageComment": "PackageComment_eq", "File.CgoPreamble": "CgoPreamble_eq"}
 syntactic_tie = None
 escalate = 1
 rct = 0
@@ -108,6 +110,8 @@ if prop in TIE_PROPS:
             "JenVerif/Tie/RenderSrc.lean": ["JenVerif/Tie/RegistrySrc.lean", "JenVerif/Tie/NullSrc.lean"],
             "JenVerif/Tie/Registry.lean": ["JenVerif/Tie/RegisterSrc.lean", "JenVerif/Tie/GuessAliasSrc.lean", "JenVerif/Tie/RegistrySrc.lean",
                                            "JenVerif/Tie/TextSrc.lean", "JenVerif/Tie/ImportsSrc.lean", "JenVerif/Tie/NullSrc.lean", "JenVerif/Tie/RenderSrc.lean"]}
+    THM_FILE.update({t: "JenVerif/Tie/FileOpsSrc.lean" for t in ("NewFile_eq", "NewFilePath_eq", "NewFilePathName_eq", "HeaderComment_eq", "PackageComment_eq", "CgoPreamble_eq")})
+    DEPS["JenVerif/Tie/FileOpsSrc.lean"] = ["JenVerif/Tie/GuessAliasSrc.lean"]
     DEPS["JenVerif/Tie/DictSrc.lean"] = ["JenVerif/Tie/RenderSrc.lean"] + DEPS["JenVerif/Tie/RenderSrc.lean"]
     DEPS["JenVerif/Tie/TokenSrc.lean"] = ["JenVerif/Tie/RenderSrc.lean"] + DEPS["JenVerif/Tie/RenderSrc.lean"]
     DEPS["JenVerif/Tie/EntrySrc.lean"] = ["JenVerif/Tie/Registry.lean"] + DEPS["JenVerif/Tie/Registry.lean"]
